@@ -6,8 +6,10 @@ pub trait DiagnosticFormatExt {
 
 impl DiagnosticFormatExt for Diagnostic {
     fn format_with_line_index(&self, index: &line_index::LineIndex) -> String {
-        if let Some(range) = self.range() {
-            let line_col = index.line_col(range.start());
+        // A range that does not lie in the indexed text cannot be located; keep the message.
+        if let Some(range) = self.range()
+            && let Some(line_col) = index.try_line_col(range.start())
+        {
             format!(
                 "{}:{}: {}",
                 line_col.line + 1,
